@@ -62,6 +62,7 @@ type Context struct {
 	HasSynced         []cache.InformerSynced
 	queue             workqueue.RateLimitingInterface
 	updatedConfigs    chan *execution.JobConfig
+	addedConfigs      chan *execution.JobConfig
 }
 
 // NewContext returns a new Context.
@@ -81,6 +82,7 @@ func NewContext(context controllercontext.Context) *Context {
 	}
 
 	c.updatedConfigs = make(chan *execution.JobConfig, updatedConfigsBufferSize)
+	c.addedConfigs = make(chan *execution.JobConfig, updatedConfigsBufferSize)
 
 	return c
 }
